@@ -15,6 +15,10 @@ ID, N = sys.argv[1], sys.argv[2]
 args = sys.argv[3:]
 SRC = f"/tmp/seed/{ID}/out"
 diff, demo, note = f"{SRC}/m{N}.diff", f"{SRC}/m{N}_demo.rs", f"{SRC}/m{N}.md"
+KEPT = f"/verif/seeded/{ID}-m{N}"
+if not os.path.exists(diff) and os.path.exists(f"{KEPT}/patch.diff"):
+    # already kept: re-run phase 2 from the committed copy
+    diff, demo = f"{KEPT}/patch.diff", f"{KEPT}/demo.rs"
 WT = os.environ.get("SEED_WT", "/tmp/scratch/st")
 ENV = dict(os.environ, CARGO_NET_OFFLINE="true")
 
@@ -35,6 +39,8 @@ def main():
     meta = {"property": ID, "mutant": f"m{N}", "source": "independent sub-agent given only the property text and a scratch worktree"}
     confirm_file = f"{SRC}/m{N}.confirm.json"
     if "--phase2" in args:
+        if not os.path.exists(confirm_file) and os.path.exists(f"{KEPT}/meta.json"):
+            confirm_file = f"{KEPT}/meta.json"
         if not os.path.exists(confirm_file):
             print("not confirmed yet (run --phase1 first)")
             return 2
@@ -137,8 +143,9 @@ def phase2(meta):
     meta["caught_by"] = [c for c, r in results.items() if r["caught"]]
     out_dir = f"/verif/seeded/{ID}-m{N}"
     os.makedirs(out_dir, exist_ok=True)
-    shutil.copy(diff, f"{out_dir}/patch.diff")
-    shutil.copy(demo, f"{out_dir}/demo.rs")
+    if os.path.abspath(diff) != os.path.abspath(f"{out_dir}/patch.diff"):
+        shutil.copy(diff, f"{out_dir}/patch.diff")
+        shutil.copy(demo, f"{out_dir}/demo.rs")
     old = {}
     if os.path.exists(f"{out_dir}/meta.json"):
         old = json.load(open(f"{out_dir}/meta.json"))
